@@ -29,6 +29,9 @@ type config struct {
 	Seed   int64  `json:"seed"`
 	After  int    `json:"after"` // probes every thread must make after it saw loaded
 	Spawns int    `json:"spawns"`
+	// Divergent: before the load, one more thread installs a private filter (another probe syscall, no thread-sync);
+	// the kernel must then refuse a thread-sync load, so a nil result is only admissible if every thread ends up filtered
+	Divergent bool `json:"divergent"`
 }
 
 type probeRec struct {
@@ -157,6 +160,19 @@ func main() {
 	}
 	for i := 0; i < cfg.N; i++ {
 		<-started
+	}
+	if cfg.Divergent {
+		dd := make(chan error)
+		go func() {
+			runtime.LockOSThread()
+			dd <- seccomp.LoadFilter(seccomp.Filter{NoNewPrivs: true, Policy: seccomp.Policy{DefaultAction: seccomp.ActionAllow,
+				Syscalls: []seccomp.SyscallGroup{{Action: seccomp.ActionErrno, Names: []string{probe.Syscalls[1].Name}}}}})
+			select {}
+		}()
+		if err := <-dd; err != nil {
+			fmt.Fprintln(os.Stderr, "divergent load failed:", err)
+			os.Exit(3)
+		}
 	}
 	time.Sleep(2 * time.Millisecond)
 
